@@ -1,4 +1,5 @@
 Require Import ExtrOcamlBasic.
 From Eupsv Require Import Base.Base Model.Graph.
-Extraction "model.ml" keep_types dependent_products dependent_products_pinned topo_graph scc comp_layers
+Extraction "model.ml" keep_types dependent_products dependent_products_pinned dependent_products_byname_pinned
+  topo_graph topo_graph_byname_pinned scc comp_layers
   sort_layers node_cmp node_cmp_pinned partition_ok uses_index users users_pinned walk_top check_cycles.
